@@ -42,6 +42,9 @@ def movement_harness(name, make, shape, direction, native_make=None, funcs=()):
                     ok = False
                 seen.add(t.get_id())
         ensure(h, ctx, "C01.permutation-of-item-coordinates", z3.BoolVal(bool(ok)))
+        from tsv.terms import base_symbols
+        rows = all(ids[s_][0] == idx[0] for idx in np.ndindex(*py.shape) for s_ in base_symbols(py[idx]) if s_ in ids) and py.shape[0] == B
+        ensure(h, ctx, "C12.row-independent", z3.BoolVal(bool(rows)))
         for b in range(B):
             ensure(h, ctx, "C01.logdet", P(ld)[b] == 0)
             ensure(h, ctx, "C02.neg-logdet", P(ld)[b] + P(ldi)[b] == 0)
@@ -93,6 +96,11 @@ def conv1x1_harness(shape):
         px, py, Wm = P(h.inputs["x"]), P(y), P(Wt)
         pp = [int(v) for v in (perm.tolist() if not isinstance(perm, Sym) else [z3.simplify(t).as_long() if z3.is_int_value(z3.simplify(t)) else ctx.intcache.get(z3.simplify(t).get_id(), (None, None))[1] for t in P(perm)])]
         bias = P(h.t.bias)
+        from tsv.terms import base_symbols
+        ids = {px[idx].get_id(): idx for idx in np.ndindex(*px.shape)}
+        rows = all(ids[s_][0] == idx[0] for idx in np.ndindex(*py.shape) for s_ in base_symbols(py[idx]) if s_ in ids) and \
+            all(ids[s_][0] == b for b in range(B) for s_ in base_symbols(P(ld)[b]) if s_ in ids)
+        ensure(h, ctx, "C12.row-independent", z3.BoolVal(bool(rows)))
         for b in range(B):
             for hh in range(H):
                 for ww in range(W_):
@@ -123,8 +131,9 @@ def conv1x1_harness(shape):
         J = torch.autograd.functional.jacobian(lambda z: t.forward(z)[0], x)
         n = x[0].numel()
         ok = all(abs(float(torch.slogdet(J.reshape(B, n, B, n)[b, :, b, :])[1]) - float(ld[b])) < 1e-7 for b in range(B))
+        rows_ = torch.cat([t.forward(x[i:i + 1])[0] for i in reversed(range(B))][::-1])
         return {"C01.logdet": ok, "C02.roundtrip_if": bool(torch.allclose(x2, x, atol=1e-8)), "C02.neg-logdet": bool(torch.allclose(ld + ldi, torch.zeros_like(ld), atol=1e-9)),
-                "C11.forward-is-affine": ok}
+                "C11.forward-is-affine": ok, "C12.row-independent": bool(torch.allclose(rows_, y, atol=1e-9))}
     hn = Harness(f"OneByOneConvolution[shape={'x'.join(map(str, shape))}]", run, post, native_call=native_call, native_clauses=native_clauses,
                  sample=lambda h, rng: {"x": rng.normal(size=shape), "seed": np.array(int(rng.integers(0, 1000)))},
                  functions=[OneByOneConvolution.forward, OneByOneConvolution.inverse, OneByOneConvolution._lu_forward_inverse])
@@ -150,6 +159,6 @@ def movement_harnesses(tier):
     for n in (2, 3):
         hs.append(movement_harness(f"RandomPermutation{n}", lambda n=n: RandomPermutation(n), (2, n), "forward", funcs=[RandomPermutation.__init__, Permutation._permute]))
         hs.append(movement_harness(f"ReversePermutation{n}", lambda n=n: ReversePermutation(n), (2, n), "forward", funcs=[ReversePermutation.__init__]))
-    for shape in ((1, 2, 1, 2), (2, 2, 2, 1)):
+    for shape in ((1, 2, 1, 2), (2, 2, 2, 1), (2, 2, 1, 2)):
         hs.append(conv1x1_harness(shape))
     return hs
